@@ -257,6 +257,7 @@ func c15emitRead(c *Ctx, data []byte) {
 func runC15(c *Ctx) {
 	c.runC15large()
 	c.runC15spz()
+	c.runC15spzPack() // after the older streams: their PRNG sequence is unchanged
 	c.Emit("c15.const.shc0", "", F(splat.SH_C0))
 
 	sizes := []int{0, 1, 1, 2, 3}
@@ -1002,5 +1003,128 @@ func (c *Ctx) runC15halfAll() {
 		c.Note("c15.spz.halfall.chunk")
 		c.Emit("c15.spz.halfall", fmt.Sprintf("%d %d", base, chunk), ans)
 		c.Emit("c15.holds.half_binary16", fmt.Sprintf("%d %d %s", base, chunk, ans), "true")
+	}
+}
+
+// ---- reference SPZ packer (the same one as SpzRef.* / C15.pack in Lemmas/SpzQuant.lean, Props/C15SpzFile.lean;
+// the repository has no SPZ writer beyond the header) -> layout -> gzip -> spz.Read, and the oracle
+// c15.holds.spz_pack_step = the predicate PointWithinStep of theorem spz_write_read on the implementation's output.
+
+func c15toU8(x float64) byte {
+	f := math.Floor(x + 0.5)
+	if !(f > 0) {
+		return 0
+	}
+	if f > 255 {
+		return 255
+	}
+	return byte(f)
+}
+
+func c15halfVal(h int) float64 {
+	e, m := h>>10, h&0x3ff
+	if e == 0 {
+		return math.Ldexp(float64(m), -24)
+	}
+	return math.Ldexp(float64(1024+m), e-25)
+}
+
+// round to nearest, ties to the even pattern; saturates at the largest finite half
+func c15halfEncode(x float64) uint16 {
+	sign := 0
+	if x < 0 {
+		sign, x = 0x8000, -x
+	}
+	lo, hi := 0, 31743
+	for lo < hi {
+		mid := (lo + hi + 1) / 2
+		if c15halfVal(mid) <= x {
+			lo = mid
+		} else {
+			hi = mid - 1
+		}
+	}
+	h := lo
+	if h < 31743 {
+		dl, dh := x-c15halfVal(h), c15halfVal(h+1)-x
+		if dh < dl || (dh == dl && h%2 == 1) {
+			h++
+		}
+	}
+	return uint16(sign | h)
+}
+
+func (c *Ctx) c15pick(lo, hi float64, specials ...float64) float64 {
+	switch c.Rng.Intn(6) {
+	case 0:
+		return specials[c.Rng.Intn(len(specials))]
+	case 1: // outside the representable range: the guard of the step statement is false there
+		if c.Rng.Intn(2) == 0 {
+			return hi + (hi-lo)*(0.01+c.Rng.Float64())
+		}
+		return lo - (hi-lo)*(0.01+c.Rng.Float64())
+	}
+	return lo + (hi-lo)*c.Rng.Float64()
+}
+
+func (c *Ctx) runC15spzPack() {
+	for k := 0; k < c.N/2+4; k++ {
+		version := uint32(1 + k%2)
+		deg := uint8((k / 2) % 4)
+		dim := c15spzDims[deg]
+		n := []int{0, 1, 1, 2, 3, 5, 9}[c.Rng.Intn(7)]
+		if k < 4 {
+			n = k % 2
+		}
+		fb := uint8(c.Rng.Intn(25))
+		recs := make([]c15packed, n)
+		orig := make([]float64, 0, n*(14+3*dim))
+		for i := range recs {
+			var pos [3]float64
+			pb := []byte{}
+			for j := range pos {
+				if version == 1 {
+					switch c.Rng.Intn(5) {
+					case 0: // subnormal / tiny
+						pos[j] = (c.Rng.Float64() - 0.5) * math.Ldexp(1, -13)
+					case 1:
+						pos[j] = c.c15pick(-65504, 65504, 0, 65504, -65504, 1, math.Ldexp(1, -14), math.Ldexp(1, -24), 2049, 2051, 65519.9)
+					default:
+						pos[j] = (c.Rng.Float64() - 0.5) * math.Ldexp(1, c.Rng.Intn(17))
+					}
+					pb = binary.LittleEndian.AppendUint16(pb, c15halfEncode(pos[j]))
+				} else {
+					lim := math.Ldexp(1, 23-int(fb))
+					pos[j] = c.c15pick(-lim, lim, 0, lim, -lim, lim-math.Ldexp(1, -int(fb)), 0.5*math.Ldexp(1, -int(fb)), 1.5*math.Ldexp(1, -int(fb)))
+					z := int64(math.Floor(pos[j]*math.Ldexp(1, int(fb)) + 0.5))
+					v := uint32(z) & 0xffffff
+					pb = append(pb, byte(v), byte(v>>8), byte(v>>16))
+				}
+			}
+			alpha := c.c15pick(0, 1, 0, 1, 0.5, 1/255.0)
+			var col, scl, rot [3]float64
+			var cb, sb, rb []byte
+			for j := 0; j < 3; j++ {
+				col[j] = c.c15pick(-10.0/3, 10.0/3, 0, 10.0/3, -10.0/3, 0.5)
+				scl[j] = c.c15pick(-10, 95.0/16, -10, 95.0/16, 0, -9.96875)
+				rot[j] = c.c15pick(-1, 1, -1, 1, 0, 1/255.0)
+				cb = append(cb, c15toU8(col[j]*(15.0/100*255)+0.5*255))
+				sb = append(sb, c15toU8((scl[j]+10)*16))
+				rb = append(rb, c15toU8(rot[j]*(255.0/2)+255.0/2))
+			}
+			shv := make([]float64, 3*dim)
+			shb := make([]byte, 3*dim)
+			for j := range shv {
+				shv[j] = c.c15pick(-1, 127.0/128, -1, 127.0/128, 0, 1/256.0)
+				shb[j] = c15toU8(shv[j]*128 + 128)
+			}
+			recs[i] = c15packed{pos: pb, alpha: c15toU8(alpha * 255), color: cb, scale: sb, rot: rb, sh: shb}
+			orig = append(orig, pos[0], pos[1], pos[2], alpha, col[0], col[1], col[2], scl[0], scl[1], scl[2], rot[0], rot[1], rot[2], 0)
+			orig = append(orig, shv...)
+		}
+		stream := c15spzEncode(0x5053474e, version, uint32(n), deg, fb, 0, 0, recs)
+		ans := c15spzRead(stream)
+		c.Note(fmt.Sprintf("c15.spz.pack.v%d", version))
+		c.Emit("c15.holds.spz_pack_step", strings.TrimSpace(fmt.Sprintf("%d %d %d %d %s %s", version, n, deg, fb, Fs(orig...), ans)), "true")
 	}
 }
